@@ -4,6 +4,7 @@
 pub mod attrmodel;
 pub mod cfgmodel;
 pub mod doc;
+pub mod dynval;
 pub mod engine;
 pub mod evgen;
 pub mod gen;
@@ -12,6 +13,7 @@ pub mod rec;
 pub mod refxml;
 pub mod sources;
 pub mod types;
+pub mod xmlname;
 
 #[cfg(feature = "full")]
 pub const VARIANT: &str = "full";
